@@ -4,6 +4,7 @@ import ast
 from ..core import AnalysisError, TermBuilder, call_arg, call_name, is_call, show, walk_term
 from ..ctx import flatten_cond, _as_load
 from ..finite import UNKNOWN, feval
+from .repair import _tri
 from ..kinds import acc_alloc, find_k_term, is_k_derivation
 from .graph import strip_int, is_pow4k
 from .exc import _exc_type
@@ -549,7 +550,10 @@ def r_fix(ctx):
             why = ''
             for atom, pol in conds:
                 if is_change_indicator(ctx, f, atom, carried, body):
-                    if pol is False:
+                    # `old == new` is true when nothing changed; a difference / flag is true when something changed
+                    sense = change_sense(ctx, f, atom, carried, body)
+                    unchanged_here = (pol is False) if sense == 'changed' else (pol is True)
+                    if unchanged_here:
                         okc = True
                     else:
                         why = 'the loop is left when something DID change'
@@ -616,6 +620,21 @@ def r_fix(ctx):
             run.check(okr, 'R-FIX', f, 'returns-trimmed-map', head.lineno, 'the loop-carried map is returned',
                       'remove_useless does not return the map produced by its trimming loop',
                       inputs='maps for which trimming removes a vertex')
+
+
+def change_sense(ctx, f, atom, carried, body):
+    """'unchanged' when the atom is true iff the round changed nothing (size(old) == size(new)), else 'changed'"""
+    t = atom
+    if t[0] == 'cmp' and t[1] == '==':
+        return 'unchanged'
+    if t[0] == 'v' and isinstance(t[2], tuple):
+        for di in t[2]:
+            d = f.defs[di]
+            if d.node in body and d.kind == 'assign':
+                dv = TermBuilder(f, d.node).def_term(d.id)
+                if dv is not None and dv != t and dv[0] == 'cmp' and dv[1] == '==':
+                    return 'unchanged'
+    return 'changed'
 
 
 def is_change_indicator(ctx, f, atom, carried, body):
@@ -689,23 +708,45 @@ def r_arb(ctx):
         for j, (n2, c2) in enumerate(adds):
             t = f.term(c2, n2)
             u = call_arg(t, 0, 'u_of_edge')
-            ok = False
+            ok, wit, undec = False, None, None
+            degs = []
             for atom, pol in ctx.conds(f, n2):
-                if pol and atom[0] == 'cmp' and atom[1] == '==' and atom[3] == ('c', 1) and is_call(atom[2], 'builtins.len'):
-                    live = atom[2][2][0]
-                    pred = None
-                    if live[0] == 'sub' and is_call(live[1], 'numpy.where', 'numpy.nonzero') and live[1][2]:
-                        pred = live[1][2][0]
-                    if pred is not None:
-                        row = K.row_of_pred(pred, f)
-                        # the row is the one enumerated together with u, or ACC[u]
-                        if row is not None and ((row[0] == 'iter' and u is not None and u[0] == 'idx' and u[1] == row[1])
-                                                or (row[0] == 'sub' and row[2] == u)):
-                            ok = True
-            run.check(ok, 'R-ARB', f, 'search-graph-only-out-degree-1#%d' % (j + 1), n2.lineno,
-                      'edges enter the cycle search only from vertices with exactly one live arc',
-                      'an edge is added to the cycle-search graph without requiring its source to have out-degree 1: '
-                      'a cycle through a branching vertex would be removed', inputs='masks with cycles through branching vertices')
+                for x in walk_term(atom):
+                    row = K.out_degree_row(x, f)
+                    if row is not None:
+                        degs.append((x, row))
+            mine = [(x, row) for x, row in degs
+                    if (row[0] == 'iter' and u is not None and u[0] == 'idx' and u[1] == row[1]) or (row[0] == 'sub' and row[2] == u)]
+            if not degs:
+                wit = 'no condition on the number of live arcs of the source vertex guards the edge'
+            elif not mine:
+                undec = 'the out-degree tested (%s) is not recognised as that of the edge source %s' % (show(degs[0][0])[:40], show(u)[:30])
+            else:
+                dterm = mine[0][0]
+                tab = []
+                for dv in range(5):
+                    vs = []
+                    for atom, pol in ctx.conds(f, n2):
+                        if not any(x == dterm for x in walk_term(atom)):
+                            continue
+                        v = feval(atom, lambda x, dv=dv: dv if x == dterm else UNKNOWN)
+                        vs.append(UNKNOWN if v is UNKNOWN else bool(v) == pol)
+                    tab.append(UNKNOWN if any(v is UNKNOWN for v in vs) else all(vs))
+                run.count('cases', 5)
+                if any(v is UNKNOWN for v in tab):
+                    undec = 'the out-degree guard is not evaluable: %s' % (tab,)
+                elif tuple(tab) == (False, True, False, False, False):
+                    ok = True
+                else:
+                    wit = 'the guard admits sources with %s live arcs' % [d for d in range(5) if tab[d]]
+            if undec and not ok:
+                run.undecided('R-ARB', f, 'search-graph-only-out-degree-1#%d' % (j + 1), n2.lineno, undec)
+            else:
+                run.check(ok, 'R-ARB', f, 'search-graph-only-out-degree-1#%d' % (j + 1), n2.lineno,
+                          'edges enter the cycle search only from vertices with exactly one live arc',
+                          'an edge is added to the cycle-search graph without requiring its source to have out-degree 1 (%s): '
+                          'a cycle through a branching vertex would be removed' % wit,
+                          inputs='masks with cycles through branching vertices')
         if not adds:
             # the search graph may be built outside the loop (then it must still be rebuilt: see freshness below)
             adds_any = [(n2, c2) for n2, c2, callee, q in ctx.calls()[f.fq]
@@ -976,14 +1017,23 @@ def r_cascade(ctx):
                 if t[0] == 'comp' and call_name(t[3][0][0]) and call_name(t[3][0][0]).endswith('.obtain_formers'):
                     k += 1
                     okc = False
+                    Kk = ctx.kinds
+                    inner_conds = [(a, p) for a, p in ctx.conds(f, nd) if a not in [a2 for a2, _p2 in ctx.conds(f, f.nodes[nd.loops[0]])]]
                     for atom, pol in ctx.conds(f, nd):
                         for x in ([atom] if atom[0] == 'cmp' else list(atom[2:]) if atom[0] == 'bool' else []):
                             if x[0] == 'cmp' and x[1] == '==' and x[3] == ('c', 0) and pol:
                                 okc = True
-                    run.check(okc, 'R-CASCADE', f, 'enqueue#%d:only-when-row-emptied' % k, nd.lineno,
-                              'predecessors are enqueued when the row has no live arc left',
-                              'predecessors are enqueued without the test that the vertex just lost its last arc',
-                              inputs='vertices that keep another arc')
+                        # `not any(P(row))` / `not P(row).any()`: no live arc left
+                        if not pol and (is_call(atom, 'builtins.any', 'numpy.any') and atom[2] and Kk.row_of_pred(atom[2][0], f) is not None
+                                        or atom[0] == 'call' and atom[1][0] == 'attr' and atom[1][2] == 'any' and
+                                        Kk.row_of_pred(atom[1][1], f) is not None):
+                            okc = True
+                    row_related = [a for a, p in inner_conds if any(Kk.kind(x, f) in ('ROW', 'ENTRY', 'ACC') or
+                                                                     Kk.out_degree_row(x, f) is not None for x in walk_term(a))]
+                    _tri(run, okc, not row_related, 'R-CASCADE', f, 'enqueue#%d:only-when-row-emptied' % k, nd.lineno,
+                         'predecessors are enqueued when the row has no live arc left',
+                         'predecessors are enqueued without any test that the vertex just lost its last arc',
+                         inputs='vertices that keep another arc')
 
 
 def r_useless_kept(ctx):
